@@ -240,6 +240,21 @@ def judge(case, acc, ctx):
             if len(set(names)) != len(names):
                 reject_reasons.append("configuration gives one pair to two roles")
         raised = None
+        earlier = not reject_reasons and bool(files) and (len(files) + len(case["envs"][0].get("cls", "")) + (base >> 4)) % 3 == 0
+        if earlier:
+            # the output directory is not fresh: the same envelopes were placed before, at ANOTHER storage address (a changed memory map)
+            try:
+                from suit_generator.cmd_image import ImageCreator as _IC
+
+                _IC.create_files_for_boot(files, out, (base + 0x2000) % 2**31, cfg_path, soc)
+            except boot.HarnessError:
+                raise
+            except BaseException as ex:
+                if isinstance(ex, KeyboardInterrupt):
+                    raise
+                earlier = False
+                for f in os.listdir(out):
+                    os.unlink(os.path.join(out, f))
         try:
             if route == "api":
                 from suit_generator.cmd_image import ImageCreator
@@ -269,7 +284,7 @@ def judge(case, acc, ctx):
         severed = any(any(isinstance(k, str) or k in SEVERED_KEYS for k in cb.loads(it["data"]).value.keys()) for it in items)
         nt = len(items) >= 2 or signed or severed or base != BASES[0] or soc != "nrf54h20" or bool(config)
         classes = [f"soc:{soc}", f"route:{route}", f"set:{min(len(items), 11)}"] + (["signed"] if signed else []) + (["severed-input"] if severed else []) + (["config"] if config else []) + \
-                  [f"negative:{r}" for r in set(reject_reasons)] + [f"fit:{e.get('fit')}" for e in case["envs"] if e.get("fit")]
+                  [f"negative:{r}" for r in set(reject_reasons)] + [f"fit:{e.get('fit')}" for e in case["envs"] if e.get("fit")] + (["earlier-run-at-another-address"] if earlier else [])
         acc.case(nt_key=(roles, soc, base, json.dumps(config), [G.shape(e["desc"]) for e in case["envs"]], sorted(set(reject_reasons))) if nt else None, classes=classes,
                  sample=case if len(json.dumps(case)) < 1800 else None, sample_key=f"{soc}/{route}/{'neg' if reject_reasons else 'ok'}/{min(len(items), 3)}")
         written = sorted(os.listdir(out))
@@ -545,7 +560,7 @@ def finalize(ctx, m, ev):
     c = m["counters"]
     ev["coverage"]["exhaustive_scope"] = "role subsets: " + ("all 2047 per SoC" if m["info"].get("role_subsets_exhaustive") else "every 8th subset per SoC in the quick tier (all in thorough)") + "; envelope contents sampled"
     ev["coverage"]["excluded_known"] = {"F4": c.get("excluded_known:F4", 0)}
-    need = ["soc:nrf9280", "route:cli", "route:main", "signed", "severed-input", "config", "negative:unknown class", "negative:duplicate role", "negative:same file twice",
+    need = ["earlier-run-at-another-address", "soc:nrf9280", "route:cli", "route:main", "signed", "severed-input", "config", "negative:unknown class", "negative:duplicate role", "negative:same file twice",
             "negative:missing component id", "negative:larger than its slot", "fit:exact", "fit:over1", "set:11"]
     for n in need:
         if not c.get(n):
